@@ -776,7 +776,10 @@ Definition fresh_handle (s : state) (h : nat) : bool :=
 
 (* no action object with this uuid and level exists (yet) *)
 Definition node_free (s : state) (u : nat) (l : level) : bool :=
-  forallb (fun ha => negb (Nat.eqb (a_uuid (snd ha)) u && level_eqb (a_level (snd ha)) l)) (heap s).
+  forallb (fun h => match alookup h (heap s) with
+                    | Some a => negb (Nat.eqb (a_uuid a) u && level_eqb (a_level a) l)
+                    | None => true
+                    end) (map fst (heap s)).
 
 (* [op_ok s o]: operation [o] may be issued in state [s] (whatever the context):
    - start_action/startTask and continue_task create a NEW action object (fresh handle);
@@ -817,11 +820,26 @@ Qed.
 Lemma level_eqb_refl l : level_eqb l l = true.
 Proof. induction l; cbn; [reflexivity|]. now rewrite Pos.eqb_refl. Qed.
 
+Lemma level_eqb_eq l : forall l', level_eqb l l' = true -> l = l'.
+Proof.
+  induction l as [|x r IH]; intros [|y r']; cbn; try discriminate; auto.
+  intros H. apply andb_true_iff in H as [H1 H2]. apply Pos.eqb_eq in H1. f_equal; auto.
+Qed.
+
 Lemma node_free_spec s u l : node_free s u l = true -> free_node (heap s) u l.
 Proof.
   unfold node_free. rewrite forallb_forall. intros F h a L U V.
-  specialize (F _ (alookup_In _ _ _ L)). cbn in F. rewrite U, V, Nat.eqb_refl, level_eqb_refl in F.
-  discriminate.
+  assert (J : In h (map fst (heap s))) by (apply (in_map fst _ _ (alookup_In _ _ _ L))).
+  specialize (F _ J). rewrite L, U, V, Nat.eqb_refl, level_eqb_refl in F. discriminate.
+Qed.
+
+Lemma node_free_complete s u l : free_node (heap s) u l -> node_free s u l = true.
+Proof.
+  intros F. unfold node_free. apply forallb_forall. intros h _.
+  destruct (alookup h (heap s)) as [a|] eqn:L; [|reflexivity].
+  apply negb_true_iff. apply not_true_iff_false. intros H.
+  apply andb_true_iff in H as [H1 H2]. apply Nat.eqb_eq in H1. apply level_eqb_eq in H2.
+  eapply F; eauto.
 Qed.
 
 Lemma fresh_handle_spec s h : fresh_handle s h = true -> alookup h (heap s) = None.
@@ -2013,3 +2031,620 @@ Example f6_end_not_last :
     (Some (VLevel [3%positive]), None) ].
 Proof. vm_compute. reflexivity. Qed.
 End Ex2.
+
+(* ====================================================================== *)
+(* 11. compiled logging programs are disciplined                          *)
+(* ====================================================================== *)
+Section Programs.
+Variable i : nat.
+Variable cfg : config.
+
+(* --- which handles an operation can add to the heap ------------------------------- *)
+Definition hnone (s : state) (h : nat) : Prop := alookup h (heap s) = None.
+
+Definition starts (o : op) (h : nat) : bool :=
+  match o with
+  | OStart h' _ _ _ _ => Nat.eqb h' h
+  | OContinue h' _ _ => Nat.eqb h' h
+  | _ => false
+  end.
+
+Lemma none_aset_live hp k (a' : action) h :
+  alookup k hp <> None -> alookup h hp = None -> alookup h (aset k a' hp) = None.
+Proof. intros Lk Lh. rewrite alookup_aset. destruct (Nat.eqb_spec k h); [congruence | auto]. Qed.
+
+Lemma none_aset_other hp k (a' : action) h :
+  k <> h -> alookup h hp = None -> alookup h (aset k a' hp) = None.
+Proof. intros N Lh. now rewrite alookup_aset_other. Qed.
+
+Lemma take_level_none s k h : hnone s h -> hnone (fst (take_level s k)) h.
+Proof.
+  unfold hnone, take_level. intros H. destruct (alookup k (heap s)) eqn:L; cbn; [|exact H].
+  apply none_aset_live; congruence.
+Qed.
+
+Lemma deliver_none s m h : hnone s h -> hnone (fst (deliver s m)) h.
+Proof.
+  unfold hnone, deliver. intros H. destruct (any_added s); [destruct (fanout m (dests s))|]; exact H.
+Qed.
+
+Lemma stamp_here_none s c mt fs h : hnone s h -> hnone (fst (stamp_here s c mt fs)) h.
+Proof.
+  intros H. unfold stamp_here, msg_position. destruct (cur s c) as [k|].
+  - pose proof (take_level_none s k h H) as T. destruct (take_level s k). exact T.
+  - exact H.
+Qed.
+
+Lemma log_report_none c about s e h : hnone s h -> hnone (log_report c about s e) h.
+Proof.
+  intros H. unfold log_report. pose proof (stamp_here_none s c (VTypeName T_destination_failure)
+    (fset K_message (render_of about) (fset K_exception (VClassName (e_cls e)) (fset K_reason (safe_str e) []))) h H) as T.
+  destruct (stamp_here s c _ _) as [s2 m]. unfold send_report. now apply deliver_none.
+Qed.
+
+Lemma send_none c s m h : hnone s h -> hnone (send c s m) h.
+Proof.
+  intros H. unfold send. pose proof (deliver_none s (fupdate m (globals s)) h H) as T.
+  destruct (deliver s _) as [s1 errs]. cbn [fst] in T. destruct (is_report _); [exact T|].
+  revert s1 T. induction errs as [|e r IH]; intros s1 T; cbn [fold_left]; [exact T|].
+  apply IH. now apply log_report_none.
+Qed.
+
+Lemma log_traceback_plain_none c s e extra h : hnone s h -> hnone (log_traceback_plain c s e extra) h.
+Proof.
+  intros H. unfold log_traceback_plain.
+  pose proof (stamp_here_none s c (VTypeName T_traceback) (traceback_fields e extra) h H) as T.
+  destruct (stamp_here s c _ _) as [s2 m]. now apply send_none.
+Qed.
+
+Lemma fields_for_exception_none c s e h : hnone s h -> hnone (fst (fields_for_exception cfg c s e)) h.
+Proof.
+  intros H. unfold fields_for_exception.
+  destruct (first_registered _ _) as [[fs|e']|]; cbn [fst]; auto. now apply log_traceback_plain_none.
+Qed.
+
+Lemma write_traceback_none c s e h : hnone s h -> hnone (write_traceback cfg c s e) h.
+Proof.
+  intros H. unfold write_traceback. pose proof (fields_for_exception_none c s e h H) as T.
+  destruct (fields_for_exception cfg c s e) as [s1 extra]. now apply log_traceback_plain_none.
+Qed.
+
+Lemma logger_write_none c s m ser h : hnone s h -> hnone (logger_write cfg c s m ser) h.
+Proof.
+  intros H. unfold logger_write. destruct ser as [sr|]; [|now apply send_none].
+  destruct (serialize sr m); [now apply send_none|].
+  pose proof (stamp_here_none _ c (VTypeName T_serialization_failure) (fset K_message (render_of m) []) h
+                (write_traceback_none c s e h H)) as T.
+  destruct (stamp_here _ c _ _) as [s3 fm]. now apply send_none.
+Qed.
+
+Lemma start_message_none c s k fs h : hnone s h -> hnone (start_message cfg c s k fs) h.
+Proof.
+  intros H. unfold start_message. destruct (alookup k (heap s)) as [a|]; [|exact H].
+  pose proof (take_level_none s k h H) as T. destruct (take_level s k) as [s1 l].
+  now apply logger_write_none.
+Qed.
+
+Lemma finish_none c s k exc h : hnone s h -> hnone (finish cfg c s k exc) h.
+Proof.
+  intros H. unfold finish. destruct (alookup k (heap s)) as [a|] eqn:L; [|exact H].
+  destruct (a_finished a); [exact H|].
+  match goal with |- context [set_heap s k ?x] => set (af := x) end.
+  assert (H0 : hnone (set_heap s k af) h) by (apply none_aset_live; [congruence | exact H]).
+  destruct exc as [e|].
+  - pose proof (fields_for_exception_none c _ e h H0) as T.
+    destruct (fields_for_exception cfg c (set_heap s k af) e) as [s' xf]. cbn [fst] in T.
+    pose proof (take_level_none s' k h T) as T2. destruct (take_level s' k) as [s2 l].
+    now apply logger_write_none.
+  - pose proof (take_level_none _ k h H0) as T2. destruct (take_level (set_heap s k af) k) as [s2 l].
+    now apply logger_write_none.
+Qed.
+
+Lemma api_none c s o h : hnone s h -> starts o h = false -> hnone (api cfg c s o) h.
+Proof.
+  intros H S. destruct o; cbn [api starts] in *; try exact H.
+  - (* OStart *) apply Nat.eqb_neq in S. unfold start_action.
+    destruct (if task then None else cur s c) as [p|].
+    + destruct (alookup p (heap s)) as [pa|]; [|exact H].
+      pose proof (take_level_none s p h H) as T. destruct (take_level s p) as [s1 l].
+      apply start_message_none. apply none_aset_other; auto.
+    + cbn [fresh_uuid]. apply start_message_none. apply none_aset_other; auto.
+  - (* OEnter *) destruct (alookup h0 (heap s)) eqn:L; [|exact H]. apply none_aset_live; [congruence | exact H].
+  - (* OExit *) destruct (alookup h0 (heap s)) eqn:L; [|exact H]. apply finish_none.
+    apply none_aset_live; [cbn; congruence | exact H].
+  - (* OCtxExit *) destruct (alookup c (tokens s)) as [[|t st]|]; exact H.
+  - (* OFinish *) now apply finish_none.
+  - (* OAddSuccess *) destruct (alookup h0 (heap s)) eqn:L; [|exact H]. apply none_aset_live; [congruence | exact H].
+  - (* OLog *) pose proof (stamp_here_none s c mt (mkfields fs) h H) as T.
+    destruct (stamp_here s c mt (mkfields fs)) as [s2 m]. now apply logger_write_none.
+  - (* OActionLog *) destruct (alookup h0 (heap s)) eqn:L; [|exact H].
+    pose proof (take_level_none s h0 h H) as T. destruct (take_level s h0) as [s2 l].
+    now apply logger_write_none.
+  - (* OTraceback *) now apply write_traceback_none.
+  - (* OSerializeId *) destruct (alookup h0 (heap s)) eqn:L; [|exact H].
+    pose proof (take_level_none s h0 h H) as T. destruct (take_level s h0) as [s1 l]. exact T.
+  - (* OContinue *) apply Nat.eqb_neq in S. destruct (alookup slot (ids s)) as [[u l]|]; [|exact H].
+    apply start_message_none. apply none_aset_other; auto.
+  - (* OAddDests *) destruct (any_added s); [exact H|]. cbn. 
+    generalize (set_out s true [] ds (gone s)) (H : hnone (set_out s true [] ds (gone s)) h).
+    induction (buffer s) as [|m r IH]; intros s0 H0; cbn [resend]; [exact H0|].
+    apply IH. now apply send_none.
+  - (* ORemoveDest *) destruct (remove_dest id (dests s)) as [ds [d|]]; exact H.
+  - (* ORawWrite *) now apply logger_write_none.
+Qed.
+
+Lemma run_none ops h : forall s,
+  hnone s h -> forallb (fun co => negb (starts (snd co) h)) ops = true -> hnone (run cfg ops s) h.
+Proof.
+  induction ops as [|[c o] r IH]; intros s H F; cbn [run fold_left fst snd] in *; [exact H|].
+  apply andb_true_iff in F as [F1 F2]. apply negb_true_iff in F1.
+  apply IH; [now apply api_none | exact F2].
+Qed.
+
+(* --- start_action / continue_task make their handle live ------------------------------ *)
+Lemma start_message_live c s k fs h : Inv i s -> live (heap s) h -> live (heap (start_message cfg c s k fs)) h.
+Proof.
+  intros I Lh. destruct (live_lookup _ _ Lh) as (a & La).
+  destruct (proj2 (start_message_step i cfg c s k fs I) _ _ La) as (a' & La' & _).
+  unfold live. congruence.
+Qed.
+
+Lemma start_live c s h task ty fs sers :
+  Inv i s -> op_ok i s (OStart h task ty fs sers) = true ->
+  live (heap (api cfg c s (OStart h task ty fs sers))) h.
+Proof.
+  intros I O. cbn [op_ok api] in *. apply andb_true_iff in O as [O1 O2].
+  apply fresh_handle_spec in O1. unfold start_action.
+  assert (Ol : olive (heap s) (if task then None else cur s c)).
+  { destruct task; [exact Logic.I | apply olive_cur, I]. }
+  destruct (if task then None else cur s c) as [p|].
+  - destruct (live_lookup _ _ Ol) as (pa & Lp). rewrite Lp, (take_level_eq _ _ _ Lp).
+    destruct (take_step i _ _ _ I Lp) as (S1 & Pd & C1 & F1 & L1).
+    assert (Hne : p <> h) by congruence.
+    assert (S2 : Step i (set_heap s p (bump pa))
+                      (set_heap (set_heap s p (bump pa)) h
+                                (mkAction (a_uuid pa) (nextpos pa) 0 false [] ty sers None))).
+    { apply new_sub_step; auto; [apply S1|]. cbn. now rewrite alookup_aset_other. }
+    apply start_message_live; [apply S2|]. cbn. unfold live. rewrite alookup_aset_same. discriminate.
+  - cbn [fresh_uuid]. pose proof (new_root_step i s h ty sers I O1 O2) as S2.
+    apply start_message_live; [apply S2|]. cbn. unfold live. rewrite alookup_aset_same. discriminate.
+Qed.
+
+Lemma continue_live c s h slot fs v :
+  Inv i s -> op_ok i s (OContinue h slot fs) = true -> alookup slot (ids s) = Some v ->
+  live (heap (api cfg c s (OContinue h slot fs))) h.
+Proof.
+  intros I O L. cbn [op_ok api] in *. rewrite L in *. destruct v as [u l].
+  apply andb_true_iff in O as [O1 O2].
+  apply start_message_live.
+  - apply new_sub_step; auto using fresh_handle_spec, node_free_spec.
+    eapply pi_ids; eauto using inv_PI.
+  - cbn. unfold live. rewrite alookup_aset_same. discriminate.
+Qed.
+
+Lemma disciplined_app a : forall b s,
+  disciplined i cfg (a ++ b) s = disciplined i cfg a s && disciplined i cfg b (run cfg a s).
+Proof.
+  induction a as [|[c o] r IH]; intros b s; cbn [app disciplined run fold_left fst snd]; [reflexivity|].
+  rewrite IH, andb_assoc. reflexivity.
+Qed.
+
+Lemma run_step ops : forall s, Inv i s -> disciplined i cfg ops s = true -> Step i s (run cfg ops s).
+Proof.
+  induction ops as [|[c o] r IH]; intros s I D; cbn [run fold_left fst snd]; [now apply Step_refl|].
+  cbn [disciplined] in D. apply andb_true_iff in D as [D1 D2].
+  pose proof (api_step i cfg c s o I D1) as S1.
+  eapply Step_trans; [exact S1|]. apply IH; [apply S1 | exact D2].
+Qed.
+
+Lemma live_step s s' h : Step i s s' -> live (heap s) h -> live (heap s') h.
+Proof.
+  intros [_ X] L. destruct (live_lookup _ _ L) as (a & La). destruct (X _ _ La) as (a' & La' & _).
+  unfold live. congruence.
+Qed.
+
+(* --- programs ------------------------------------------------------------------------ *)
+(* handles a program creates (start_action / continue_task) *)
+Fixpoint declared_stmt (st : stmt) : list nat :=
+  match st with
+  | SAct h _ _ _ _ _ _ body => h :: flat_map declared_stmt body
+  | STry body => flat_map declared_stmt body
+  | SHandoff _ _ h' _ body => h' :: flat_map declared_stmt body
+  | SReenter _ body => flat_map declared_stmt body
+  | SSpawn _ body => flat_map declared_stmt body
+  | _ => []
+  end.
+Definition declared (p : list stmt) : list nat := flat_map declared_stmt p.
+
+(* simple syntactic conditions: serializers do not declare task_uuid/task_level; no raw
+   Logger.write; serialize_task_id / re-entering only on an enclosing action ([scope]) *)
+Fixpoint wf_stmt (scope : list nat) (st : stmt) : bool :=
+  match st with
+  | SMsg _ _ ser => oser_ok ser
+  | SAct h _ _ _ _ sers _ body => asers_ok sers && forallb (wf_stmt (h :: scope)) body
+  | STry body => forallb (wf_stmt scope) body
+  | SHandoff h _ h' _ body => existsb (Nat.eqb h) scope && forallb (wf_stmt (h' :: scope)) body
+  | SReenter h body => existsb (Nat.eqb h) scope && forallb (wf_stmt scope) body
+  | SRawWrite _ _ => false
+  | SSpawn _ body => forallb (wf_stmt scope) body
+  | _ => true
+  end.
+Definition wf_prog (scope : list nat) (p : list stmt) : bool := forallb (wf_stmt scope) p.
+
+Section StmtInd.
+Variables (P : stmt -> Prop) (Q : list stmt -> Prop).
+Hypotheses
+  (Hnil : Q []) (Hcons : forall st r, P st -> Q r -> Q (st :: r))
+  (HMsg : forall mt fs ser, P (SMsg mt fs ser))
+  (HActLog : forall h mt fs, P (SActLog h mt fs))
+  (HAct : forall h style task ty fs sers succ body, Q body -> P (SAct h style task ty fs sers succ body))
+  (HRaise : forall e, P (SRaise e))
+  (HTry : forall body, Q body -> P (STry body))
+  (HTraceback : forall e, P (STraceback e))
+  (HHandoff : forall h slot h' c' body, Q body -> P (SHandoff h slot h' c' body))
+  (HReenter : forall h body, Q body -> P (SReenter h body))
+  (HFinishAgain : forall h exc, P (SFinishAgain h exc))
+  (HRawWrite : forall m ser, P (SRawWrite m ser))
+  (HSpawn : forall c' body, Q body -> P (SSpawn c' body)).
+
+Fixpoint stmt_ind2 (st : stmt) : P st :=
+  let go := fix go (l : list stmt) : Q l :=
+    match l with [] => Hnil | x :: r => Hcons x r (stmt_ind2 x) (go r) end in
+  match st with
+  | SMsg mt fs ser => HMsg mt fs ser
+  | SActLog h mt fs => HActLog h mt fs
+  | SAct h style task ty fs sers succ body => HAct h style task ty fs sers succ body (go body)
+  | SRaise e => HRaise e
+  | STry body => HTry body (go body)
+  | STraceback e => HTraceback e
+  | SHandoff h slot h' c' body => HHandoff h slot h' c' body (go body)
+  | SReenter h body => HReenter h body (go body)
+  | SFinishAgain h exc => HFinishAgain h exc
+  | SRawWrite m ser => HRawWrite m ser
+  | SSpawn c' body => HSpawn c' body (go body)
+  end.
+
+Fixpoint prog_ind2 (l : list stmt) : Q l :=
+  match l with [] => Hnil | x :: r => Hcons x r (stmt_ind2 x) (prog_ind2 r) end.
+End StmtInd.
+
+(* unfolding equations of the compiler *)
+Lemma compile_cons c st rest :
+  compile c (st :: rest) =
+  (let '(ops, out) := compile_stmt c st in
+   match out with
+   | Some e => (ops ++ probe c, Some e)
+   | None => let '(rops, rout) := compile c rest in (ops ++ probe c ++ rops, rout)
+   end).
+Proof. reflexivity. Qed.
+
+Lemma compile_SAct c h style task ty fs sers succ body :
+  compile_stmt c (SAct h style task ty fs sers succ body) =
+  (let '(bops, bout) := compile c body in
+   let succ_ops := match bout with None => [(c, OAddSuccess h succ)] | Some _ => [] end in
+   match style with
+   | WithBlock =>
+       ([(c, OStart h task ty fs sers); (c, OEnter h)] ++ probe c ++ bops ++ succ_ops
+          ++ [(c, OExit h bout)], bout)
+   | _ =>
+       ([(c, OStart h task ty fs sers); (c, OCtxEnter h)] ++ probe c ++ bops ++ succ_ops
+          ++ [(c, OCtxExit)] ++ probe c ++ [(c, OFinish h bout)], bout)
+   end).
+Proof. reflexivity. Qed.
+
+Lemma compile_STry c body : compile_stmt c (STry body) = (fst (compile c body), None).
+Proof. reflexivity. Qed.
+
+Lemma compile_SHandoff c h slot h' c' body :
+  compile_stmt c (SHandoff h slot h' c' body) =
+  (let '(bops, bout) := compile c' body in
+   ([(c, OSerializeId h slot); (c', OProbe); (c', OContinue h' slot []); (c', OEnter h')]
+      ++ probe c' ++ bops ++ [(c', OExit h' bout)] ++ probe c', None)).
+Proof. reflexivity. Qed.
+
+Lemma compile_SReenter c h body :
+  compile_stmt c (SReenter h body) =
+  (let '(bops, bout) := compile c body in
+   ([(c, OCtxEnter h)] ++ probe c ++ bops ++ [(c, OCtxExit)], bout)).
+Proof. reflexivity. Qed.
+
+Lemma compile_SSpawn c c' body :
+  compile_stmt c (SSpawn c' body) =
+  (let '(bops, bout) := compile c' body in
+   ([(c, OSpawn c')] ++ probe c' ++ bops ++ probe c', None)).
+Proof. reflexivity. Qed.
+
+(* handles started by an op list *)
+Definition starts_of (ops : list (nat * op)) : list nat :=
+  flat_map (fun co => match snd co with
+                      | OStart h _ _ _ _ => [h]
+                      | OContinue h _ _ => [h]
+                      | _ => []
+                      end) ops.
+
+Lemma starts_of_app a b : starts_of (a ++ b) = starts_of a ++ starts_of b.
+Proof. apply flat_map_app. Qed.
+
+Lemma starts_of_spec ops h :
+  ~ In h (starts_of ops) -> forallb (fun co => negb (starts (snd co) h)) ops = true.
+Proof.
+  induction ops as [|[c o] r IH]; intros N; cbn; [reflexivity|].
+  unfold starts_of in N. cbn [flat_map snd] in N. fold (starts_of r) in N.
+  rewrite IH by (intros J; apply N; apply in_or_app; now right).
+  rewrite andb_true_r. apply negb_true_iff.
+  destruct o; cbn; try reflexivity; apply Nat.eqb_neq; intros ->; apply N; now left.
+Qed.
+
+Lemma compile_starts :
+  (forall st c, incl (starts_of (fst (compile_stmt c st))) (declared_stmt st)) /\
+  (forall p c, incl (starts_of (fst (compile c p))) (declared p)).
+Proof.
+  assert (X : forall st, (fun st => forall c, incl (starts_of (fst (compile_stmt c st))) (declared_stmt st)) st).
+  { apply (stmt_ind2 (fun st => forall c, incl (starts_of (fst (compile_stmt c st))) (declared_stmt st))
+                     (fun p => forall c, incl (starts_of (fst (compile c p))) (declared p)));
+      try (intros; cbn; apply incl_refl).
+    - intros st r IHs IHr c. rewrite compile_cons. specialize (IHs c). specialize (IHr c).
+      destruct (compile_stmt c st) as [ops out]. cbn [fst] in IHs.
+      unfold declared in *. cbn [flat_map].
+      destruct out as [e|].
+      + cbn [fst]. rewrite starts_of_app. cbn. rewrite app_nil_r. now apply incl_appl.
+      + destruct (compile c r) as [rops rout]. cbn [fst] in *.
+        rewrite !starts_of_app. cbn [probe starts_of flat_map snd app].
+        apply incl_app; [now apply incl_appl | now apply incl_appr].
+    - (* SAct *)
+      intros h style task ty fs sers succ body IH c. rewrite compile_SAct. specialize (IH c).
+      destruct (compile c body) as [bops bout]. cbn [fst] in IH. cbn [declared_stmt].
+      assert (Sx : starts_of (match bout with None => [(c, OAddSuccess h succ)] | Some _ => [] end) = [])
+        by (destruct bout; reflexivity).
+      destruct style; cbn [fst]; rewrite !starts_of_app, Sx; cbn [probe starts_of flat_map snd app];
+        rewrite ?app_nil_r; (apply incl_cons; [now left | now apply incl_tl]).
+    - (* STry *) intros body IH c. rewrite compile_STry. cbn [fst declared_stmt]. apply IH.
+    - (* SHandoff *)
+      intros h slot h' c' body IH c. rewrite compile_SHandoff. specialize (IH c').
+      destruct (compile c' body) as [bops bout]. cbn [fst] in *. cbn [declared_stmt].
+      rewrite !starts_of_app. cbn [probe starts_of flat_map snd app]. rewrite ?app_nil_r.
+      apply incl_cons; [now left | now apply incl_tl].
+    - (* SReenter *)
+      intros h body IH c. rewrite compile_SReenter. specialize (IH c).
+      destruct (compile c body) as [bops bout]. cbn [fst] in *. cbn [declared_stmt].
+      rewrite !starts_of_app. cbn [probe starts_of flat_map snd app]. now rewrite ?app_nil_r.
+    - (* SSpawn *)
+      intros c' body IH c. rewrite compile_SSpawn. specialize (IH c').
+      destruct (compile c' body) as [bops bout]. cbn [fst] in *. cbn [declared_stmt].
+      rewrite !starts_of_app. cbn [probe starts_of flat_map snd app]. now rewrite ?app_nil_r. }
+  split; [exact X|].
+  induction p as [|st r IH]; intros c; [cbn; apply incl_refl|].
+  rewrite compile_cons. pose proof (X st c) as IHs. specialize (IH c).
+  destruct (compile_stmt c st) as [ops out]. cbn [fst] in IHs.
+  unfold declared in *. cbn [flat_map].
+  destruct out as [e|].
+  - cbn [fst]. rewrite starts_of_app. cbn. rewrite app_nil_r. now apply incl_appl.
+  - destruct (compile c r) as [rops rout]. cbn [fst] in *.
+    rewrite !starts_of_app. cbn [probe starts_of flat_map snd app].
+    apply incl_app; [now apply incl_appl | now apply incl_appr].
+Qed.
+
+(* --- the main induction ---------------------------------------------------------------- *)
+Record Pre (scope decl : list nat) (s : state) : Prop := {
+  pre_inv : Inv i s;
+  pre_live : forall h, In h scope -> live (heap s) h;
+  pre_none : forall h, In h decl -> hnone s h
+}.
+
+Lemma Pre_api scope decl c s o :
+  Pre scope decl s -> op_ok i s o = true -> (forall h, In h decl -> starts o h = false) ->
+  Pre scope decl (api cfg c s o).
+Proof.
+  intros [I L N] O S. pose proof (api_step i cfg c s o I O) as St.
+  constructor; [apply St | intros; eapply live_step; eauto | intros; apply api_none; auto].
+Qed.
+
+Lemma Pre_run scope decl ops s :
+  Pre scope decl s -> disciplined i cfg ops s = true ->
+  (forall h, In h decl -> ~ In h (starts_of ops)) -> Pre scope decl (run cfg ops s).
+Proof.
+  intros [I L N] D S. pose proof (run_step ops s I D) as St.
+  constructor; [apply St | intros; eapply live_step; eauto
+               | intros; apply run_none; auto using starts_of_spec].
+Qed.
+
+Lemma Pre_scope scope decl s h : Pre scope decl s -> live (heap s) h -> Pre (h :: scope) decl s.
+Proof. intros [I L N] Lh. constructor; auto. intros h0 [<-|J]; auto. Qed.
+
+Lemma Pre_sub scope decl decl' s : Pre scope decl s -> incl decl' decl -> Pre scope decl' s.
+Proof. intros [I L N] Sub. constructor; auto. Qed.
+
+Lemma disc_step c o r s :
+  op_ok i s o = true -> disciplined i cfg r (api cfg c s o) = true ->
+  disciplined i cfg ((c, o) :: r) s = true.
+Proof. intros A B. cbn [disciplined]. now rewrite A, B. Qed.
+
+(* operations that are always allowed *)
+Definition triv (o : op) : bool :=
+  match o with
+  | OEnter _ | OExit _ _ | OCtxExit | OFinish _ _ | OAddSuccess _ _ | OActionLog _ _ _
+  | OTraceback _ | OSerializeId _ _ | OSpawn _ | OAddDests _ | OProbe => true
+  | _ => false
+  end.
+
+Lemma disciplined_triv ops :
+  forallb (fun co => triv (snd co)) ops = true -> forall s, disciplined i cfg ops s = true.
+Proof.
+  induction ops as [|[c o] r IH]; intros T s; cbn [forallb snd disciplined] in *; [reflexivity|].
+  apply andb_true_iff in T as [T1 T2]. rewrite IH by exact T2.
+  destruct o; try discriminate; reflexivity.
+Qed.
+
+Lemma NoDup_app_inv {A} (a b : list A) :
+  NoDup (a ++ b) -> NoDup a /\ NoDup b /\ forall x, In x a -> ~ In x b.
+Proof.
+  induction a as [|x r IH]; cbn; intros N.
+  - split; [constructor | split; [exact N | intros x []]].
+  - inversion N as [|? ? Nx Nr]; subst. destruct (IH Nr) as (A1 & A2 & A3).
+    split; [|split; [exact A2|]].
+    + constructor; [|exact A1]. intros J. apply Nx. apply in_or_app. now left.
+    + intros y [<-|J]; [|auto]. intros Jb. apply Nx. apply in_or_app. now right.
+Qed.
+
+Lemma live_not_fresh s h : live (heap s) h -> negb (fresh_handle s h) = true.
+Proof. unfold live, fresh_handle. destruct (alookup h (heap s)); [reflexivity | congruence]. Qed.
+
+Lemma in_scope h scope : existsb (Nat.eqb h) scope = true -> In h scope.
+Proof. intros H. apply existsb_exists in H as (x & J & E). apply Nat.eqb_eq in E. now subst. Qed.
+
+Lemma serialize_id_eq c s h slot a :
+  alookup h (heap s) = Some a ->
+  api cfg c s (OSerializeId h slot) =
+  set_ids (set_heap s h (bump a)) (aset slot (a_uuid a, nextpos a) (ids s)).
+Proof. intros L. cbn [api]. rewrite L, (take_level_eq _ _ _ L). reflexivity. Qed.
+
+Lemma compile_disciplined_gen :
+  forall p c scope s,
+    wf_prog scope p = true -> NoDup (declared p) -> Pre scope (declared p) s ->
+    disciplined i cfg (fst (compile c p)) s = true.
+Proof.
+  apply (prog_ind2
+    (fun st => forall c scope s, wf_stmt scope st = true -> NoDup (declared_stmt st) ->
+               Pre scope (declared_stmt st) s -> disciplined i cfg (fst (compile_stmt c st)) s = true)
+    (fun p => forall c scope s, wf_prog scope p = true -> NoDup (declared p) ->
+              Pre scope (declared p) s -> disciplined i cfg (fst (compile c p)) s = true)).
+  - (* nil *) intros; reflexivity.
+  - (* cons *)
+    intros st r IHs IHr c scope s W ND Pr.
+    cbn [wf_prog forallb] in W. apply andb_true_iff in W as [W1 W2].
+    unfold declared in ND, Pr. cbn [flat_map] in ND, Pr. fold (declared r) in ND, Pr.
+    destruct (NoDup_app_inv _ _ ND) as (ND1 & ND2 & Dj).
+    rewrite compile_cons.
+    pose proof (IHs c scope s W1 ND1 (Pre_sub _ _ _ _ Pr (incl_appl _ (incl_refl _)))) as D1.
+    pose proof (proj1 compile_starts st c) as St.
+    destruct (compile_stmt c st) as [ops out]. cbn [fst] in D1, St.
+    destruct out as [e|].
+    + cbn [fst]. rewrite disciplined_app, D1. reflexivity.
+    + specialize (IHr c scope (api cfg c (run cfg ops s) OProbe)).
+      destruct (compile c r) as [rops rout]. cbn [fst] in *.
+      rewrite disciplined_app, D1. cbn [andb].
+      change (probe c ++ rops) with ((c, OProbe) :: rops). apply disc_step; [reflexivity|].
+      apply IHr; auto. apply Pre_api; [|reflexivity | intros; reflexivity].
+      apply Pre_run; [apply (Pre_sub _ _ _ _ Pr), incl_appr, incl_refl | exact D1|].
+      intros h J K. apply (Dj h); auto.
+  - (* SMsg *) intros mt fs ser c scope s W _ _. cbn [compile_stmt fst disciplined op_ok wf_stmt] in *.
+    now rewrite W.
+  - (* SActLog *) intros; reflexivity.
+  - (* SAct *)
+    intros h style task ty fs sers succ body IH c scope s W ND Pr.
+    cbn [wf_stmt] in W. apply andb_true_iff in W as [W1 W2].
+    cbn [declared_stmt] in ND, Pr. fold (declared body) in ND, Pr.
+    inversion ND as [|? ? Nh ND']; subst.
+    rewrite compile_SAct. specialize (IH c (h :: scope)).
+    destruct (compile c body) as [bops bout]. cbn [fst] in IH.
+    set (o1 := OStart h task ty fs sers).
+    assert (O1 : op_ok i s o1 = true).
+    { cbn. rewrite W1, andb_true_r. unfold fresh_handle.
+      now rewrite (pre_none _ _ _ Pr h (or_introl eq_refl)). }
+    pose proof (start_live c s h task ty fs sers (pre_inv _ _ _ Pr) O1) as Lh.
+    assert (P1 : Pre (h :: scope) (declared body) (api cfg c s o1)).
+    { apply Pre_scope; [|exact Lh]. apply Pre_api; auto.
+      - apply (Pre_sub _ _ _ _ Pr), incl_tl, incl_refl.
+      - intros h0 J. cbn. apply Nat.eqb_neq. intros ->. contradiction. }
+    destruct style; cbn [fst app probe].
+    + apply disc_step; [exact O1|]. apply disc_step; [reflexivity|]. apply disc_step; [reflexivity|].
+      rewrite disciplined_app, IH; auto.
+      * cbn [andb]. apply disciplined_triv. destruct bout; reflexivity.
+      * apply Pre_api; [|reflexivity | intros; reflexivity].
+        apply Pre_api; [exact P1 | reflexivity | intros; reflexivity].
+    + apply disc_step; [exact O1|].
+      apply disc_step; [cbn [op_ok]; apply live_not_fresh, (pre_live _ _ _ P1); now left|].
+      apply disc_step; [reflexivity|].
+      rewrite disciplined_app, IH; auto.
+      * cbn [andb]. apply disciplined_triv. destruct bout; reflexivity.
+      * apply Pre_api; [|reflexivity | intros; reflexivity].
+        apply Pre_api; [exact P1 | | intros; reflexivity].
+        cbn [op_ok]; apply live_not_fresh, (pre_live _ _ _ P1); now left.
+    + apply disc_step; [exact O1|].
+      apply disc_step; [cbn [op_ok]; apply live_not_fresh, (pre_live _ _ _ P1); now left|].
+      apply disc_step; [reflexivity|].
+      rewrite disciplined_app, IH; auto.
+      * cbn [andb]. apply disciplined_triv. destruct bout; reflexivity.
+      * apply Pre_api; [|reflexivity | intros; reflexivity].
+        apply Pre_api; [exact P1 | | intros; reflexivity].
+        cbn [op_ok]; apply live_not_fresh, (pre_live _ _ _ P1); now left.
+  - (* SRaise *) intros; reflexivity.
+  - (* STry *)
+    intros body IH c scope s W ND Pr. rewrite compile_STry. cbn [fst]. apply (IH c scope s); auto.
+  - (* STraceback *) intros; reflexivity.
+  - (* SHandoff *)
+    intros h slot h' c' body IH c scope s W ND Pr.
+    cbn [wf_stmt] in W. apply andb_true_iff in W as [W1 W2]. apply in_scope in W1.
+    cbn [declared_stmt] in ND, Pr. fold (declared body) in ND, Pr.
+    inversion ND as [|? ? Nh ND']; subst.
+    rewrite compile_SHandoff. specialize (IH c' (h' :: scope)).
+    destruct (compile c' body) as [bops bout]. cbn [fst] in IH. cbn [fst app probe].
+    destruct (live_lookup _ _ (pre_live _ _ _ Pr h W1)) as (a & La).
+    apply disc_step; [reflexivity|]. apply disc_step; [reflexivity|].
+    assert (P2 : Pre scope (h' :: declared body)
+                     (api cfg c' (api cfg c s (OSerializeId h slot)) OProbe)).
+    { apply Pre_api; [|reflexivity | intros; reflexivity].
+      apply Pre_api; [exact Pr | reflexivity | intros; reflexivity]. }
+    set (s2 := api cfg c' (api cfg c s (OSerializeId h slot)) OProbe) in *.
+    assert (Es : ids s2 = aset slot (a_uuid a, nextpos a) (ids s) /\
+                 heap s2 = aset h (bump a) (heap s)).
+    { unfold s2. rewrite (serialize_id_eq _ _ _ _ _ La). split; reflexivity. }
+    destruct Es as (Ei & Eh).
+    assert (O3 : op_ok i s2 (OContinue h' slot []) = true).
+    { cbn [op_ok]. rewrite Ei, alookup_aset_same. apply andb_true_iff. split.
+      - unfold fresh_handle. now rewrite (pre_none _ _ _ P2 h' (or_introl eq_refl)).
+      - apply node_free_complete. rewrite Eh.
+        destruct (take_step i _ _ _ (pre_inv _ _ _ Pr) La) as (_ & _ & _ & F1 & _). exact F1. }
+    apply disc_step; [exact O3|].
+    assert (Lh : live (heap (api cfg c' s2 (OContinue h' slot []))) h').
+    { eapply continue_live; [apply P2 | exact O3 |]. rewrite Ei. apply alookup_aset_same. }
+    assert (P3 : Pre (h' :: scope) (declared body) (api cfg c' s2 (OContinue h' slot []))).
+    { apply Pre_scope; [|exact Lh]. apply Pre_api; auto.
+      - apply (Pre_sub _ _ _ _ P2), incl_tl, incl_refl.
+      - intros h0 J. cbn. apply Nat.eqb_neq. intros ->. contradiction. }
+    apply disc_step; [reflexivity|]. apply disc_step; [reflexivity|].
+    rewrite disciplined_app, IH; auto; try (cbn [andb]; apply disciplined_triv; reflexivity).
+    apply Pre_api; [|reflexivity | intros; reflexivity].
+    apply Pre_api; [exact P3 | reflexivity | intros; reflexivity].
+  - (* SReenter *)
+    intros h body IH c scope s W ND Pr.
+    cbn [wf_stmt] in W. apply andb_true_iff in W as [W1 W2]. apply in_scope in W1.
+    rewrite compile_SReenter. specialize (IH c scope).
+    destruct (compile c body) as [bops bout]. cbn [fst] in IH. cbn [fst app probe].
+    assert (O1 : op_ok i s (OCtxEnter h) = true) by (cbn [op_ok]; apply live_not_fresh, Pr, W1).
+    apply disc_step; [exact O1|]. apply disc_step; [reflexivity|].
+    rewrite disciplined_app, IH; auto; try (cbn [andb]; apply disciplined_triv; reflexivity).
+    apply Pre_api; [|reflexivity | intros; reflexivity].
+    apply Pre_api; [exact Pr | exact O1 | intros; reflexivity].
+  - (* SFinishAgain *) intros; reflexivity.
+  - (* SRawWrite *) intros m ser c scope s W. discriminate.
+  - (* SSpawn *)
+    intros c' body IH c scope s W ND Pr.
+    rewrite compile_SSpawn. specialize (IH c' scope).
+    destruct (compile c' body) as [bops bout]. cbn [fst] in IH. cbn [fst app probe].
+    apply disc_step; [reflexivity|]. apply disc_step; [reflexivity|].
+    rewrite disciplined_app, IH; auto; try (cbn [andb]; apply disciplined_triv; reflexivity).
+    apply Pre_api; [|reflexivity | intros; reflexivity].
+    apply Pre_api; [exact Pr | reflexivity | intros; reflexivity].
+Qed.
+
+End Programs.
+
+(* a whole program, run after add_destinations(ds) as the first operation *)
+Theorem C02_compile_disciplined cfg i ds c p :
+  observed i ds -> wf_prog [] p = true -> NoDup (declared p) ->
+  disciplined i cfg (fst (compile c p)) (registered ds) = true.
+Proof.
+  intros O W ND. apply compile_disciplined_gen with (scope := []); auto.
+  constructor; [now apply Inv_start | intros h [] | intros h _; reflexivity].
+Qed.
+
+(* hence theorems 1 and 3 for every well-formed program, whatever the destinations do *)
+Corollary C02_unique_program cfg i ds c0 c p :
+  observed i ds -> wf_prog [] p = true -> NoDup (declared p) ->
+  NoDup (map (fun m => (fget K_uuid m, fget K_level m))
+             (trace_of (final cfg c0 ds (fst (compile c p))) i)).
+Proof. intros O W ND. apply C02_unique; auto using C02_compile_disciplined. Qed.
+
+Example ex_wf : wf_prog [] Ex.prog0 = true /\ NoDup (declared Ex.prog0).
+Proof. split; [reflexivity|]. repeat constructor; cbn; intuition discriminate. Qed.
